@@ -9,6 +9,8 @@ the real `config._load` / `config.load`.
   corr:render   the harness's rendering of abstract lines to INI text, checked against
                 configparser itself (the line-level oracle)
   corr:load     model `load` vs real `_load` / `load` (raw config as a key -> value map)
+Multi-step cases: after a load the files are edited in place and loaded again in the same process
+(monitor reload_sees_current_files, and the second load is a correspondence case of its own).
 Monitors: load_total (nothing escapes), last_setter_wins (the Gallina predicate
 `last_setter_holds` evaluated on the implementation's result), faults_skip_only_themselves
 and frame (two-run comparisons on the real code).
@@ -22,6 +24,7 @@ import os
 import pathlib
 import shutil
 import tempfile
+import types as pytypes
 
 from cfglib import Interner
 from common import vlib
@@ -106,9 +109,9 @@ def gen_stack(rng):
             members, names = [], ["a.conf", "b.conf", "c.txt", "d.CONF", ".conf", "e.conf", "zz.conf", "sub.conf", "n.conf.bak"]
             rng.shuffle(names)
             for name in names[: rng.choice([0, 1, 2, 3, 4])]:
-                shape = rng.weighted([("file", 6), ("dir", 0.7), ("dangling", 0.5), ("link", 0.8)])
+                shape = rng.weighted([("file", 6), ("dir", 0.9), ("dangling", 0.5), ("link", 0.8), ("socket", 0.5)])
                 src = gen_source(rng, True)
-                if shape in ("dir", "dangling"):
+                if shape in ("dir", "dangling", "socket"):
                     src = {"kind": "lines", "lines": gen_lines(rng, False), "undecodable": False, "noise": 0}
                 eligible = shape in ("file", "link") and name.endswith(".conf") and name != ".conf"
                 if shape in ("file", "link") and src["kind"] == "absent":
@@ -148,6 +151,41 @@ def gen_stack(rng):
     keyring = [[rng.choice(SECTIONS[:3]), rng.choice(KEYS[:4]), rng.choice(["secret", "pä\udcffss", "", "x #1"])]
                for _ in range(rng.choice([0, 0, 0, 1, 2]))]
     return {"defaults": defaults, "files": files, "keyring": keyring, "overrides": overrides}
+
+
+def edited_stack(stack, rng):
+    """The same files and directories with other contents (what a user edit leaves behind)."""
+    s2 = json.loads(json.dumps(stack))
+
+    def edit(src):
+        if src["kind"] == "absent":
+            return
+        first_bad = src["lines"] and src["lines"][0][0] != "H"
+        src["lines"] = [list(x) for x in gen_lines(rng, True)]
+        if first_bad and rng.random() < 0.5:
+            src["lines"].insert(0, ["O", "a", "9"])
+        src["undecodable"] = False
+        src["noise"] = rng.randint(0, 10**6)
+
+    for fe in s2["files"]:
+        if "same_as" in fe or "same_as_member" in fe:
+            continue
+        if "file" in fe:
+            edit(fe["file"])
+        else:
+            for m in fe["dir"]:
+                if m["shape"] in ("file", "link"):
+                    edit(m["src"])
+    for fe in s2["files"]:
+        if "same_as" in fe:
+            tgt = s2["files"][fe["same_as"]]
+            for k in ("file", "dir"):
+                if k in tgt:
+                    fe[k] = json.loads(json.dumps(tgt[k]))
+        elif "same_as_member" in fe:
+            j, name = fe["same_as_member"]
+            fe["file"] = json.loads(json.dumps(next(m["src"] for m in s2["files"][j]["dir"] if m["name"] == name)))
+    return s2
 
 
 # ------------------------------------------------------------------ rendering
@@ -219,6 +257,14 @@ class Materialised:
                         (p / "inner.conf").write_bytes(src_bytes(m["src"]))
                     elif m["shape"] == "dangling":
                         p.symlink_to(d / "nonexistent-target")
+                    elif m["shape"] == "socket":
+                        import socket as _socket
+
+                        sk = _socket.socket(_socket.AF_UNIX)   # exists, is readable, but open() fails
+                        try:
+                            sk.bind(str(p))
+                        finally:
+                            sk.close()
                     elif m["shape"] == "link":
                         tgt = self.root / f"t{i}-{m['name']}.target"
                         self._write(tgt, m["src"])
@@ -228,6 +274,26 @@ class Materialised:
                 by_name = {m["name"]: m for m in fe["dir"]}
                 self.dir_orders.append([by_name[g.name] for g in d.iterdir()])
                 self.paths.append(d)
+
+    def rewrite(self, stack2):
+        """Put the contents of `stack2` (same structure, other lines) at the SAME paths."""
+        for i, fe in enumerate(stack2["files"]):
+            if "same_as" in fe or "same_as_member" in fe:
+                continue
+            if "file" in fe:
+                if fe["file"]["kind"] != "absent":
+                    self.paths[i].write_bytes(src_bytes(fe["file"]))
+            else:
+                for m in fe["dir"]:
+                    if m["shape"] in ("file", "link"):
+                        (self.paths[i] / m["name"]).resolve().write_bytes(src_bytes(m["src"]))
+        # directory orders name the members of the new stack
+        for i, fe in enumerate(stack2["files"]):
+            if self.dir_orders[i] is None:
+                continue
+            j = fe.get("same_as", i)
+            by_name = {m["name"]: m for m in stack2["files"][j]["dir"]}
+            self.dir_orders[i] = [by_name[m["name"]] for m in self.dir_orders[i]]
 
     def _write(self, p, src):
         if src["kind"] == "absent":
@@ -305,11 +371,11 @@ def canon_raw(raw):
     return out
 
 
-def run_load(stack, via_load=False):
+def run_load(stack, via_load=False, mat=None):
     """-> (materialised, ("ok", rawdict) | ("raise", canonical exception))"""
     from mopidy import config as C
 
-    mat = Materialised(stack)
+    mat = mat if mat is not None else Materialised(stack)
     defaults = [render_lines(d, 17 + i) for i, d in enumerate(stack["defaults"])]
     keyring = [(s, k, v.encode("utf-8", "surrogateescape")) for s, k, v in stack["keyring"]]
     overrides = [tuple(o) for o in stack["overrides"]]
@@ -557,7 +623,12 @@ def load_stage(chk):
                     frame_probe(chk, stack, mat, out, rng, via_load, case, all_asg)
             extra = [dlines] if via_load else []
             kept.append(case)
-            builders.append(lambda I, stack=stack, mat=mat, out=out, extra=extra: g_stack(stack, mat, out, I, extra))
+            snap = pytypes.SimpleNamespace(dir_orders=list(mat.dir_orders))
+            builders.append(lambda I, stack=stack, mat=snap, out=out, extra=extra: g_stack(stack, mat, out, I, extra))
+            # multi-step: edit the files in place (same paths, same process) and load again
+            preset = chk.replay_case.get("reload") if chk.replay_case else None
+            if out[0] == "ok" and stack["files"] and (preset or rng.random() < 0.3):
+                reload_probe(chk, stack, mat, via_load, rng, case, builders, kept, extra, preset)
         finally:
             mat.close()
     chk.obligation("corr:render", "correspondence", render_ok)
@@ -588,6 +659,37 @@ def load_stage(chk):
                 chk.monitor_failure("last_setter_wins", {"call": "_load"},
                                     "some key's effective value is not the one of its last setter in priority order", case)
     chk.obligation("corr:load", "correspondence", ok)
+
+
+def reload_probe(chk, stack, mat, via_load, rng, case, builders, kept, extra, preset=None):
+    """Second load in the same process after the files were edited in place: the result must be
+    that of the files as they are now (judged by the model / last_setter_holds like any other
+    case, and compared with a load of the same contents from fresh paths)."""
+    s2 = preset or edited_stack(stack, rng)
+    mat.rewrite(s2)
+    _m, out2 = run_load(s2, via_load, mat=mat)
+    case2 = {**case, "reload": s2}
+    chk.count(1, nontrivial_key=json.dumps(s2, sort_keys=True))
+    chk.dist("load:reload-after-edit")
+    if out2[0] == "raise":
+        chk.monitor_failure("load_total", {"call": "_load", "exception": out2[1], "cause": "reload"},
+                            f"{out2[1]} escaped the second load after the files were edited", case2)
+        if out2[1] not in ("DuplicateError", "DecodeError"):
+            return
+    mat3, out3 = run_load(s2, via_load)
+    try:
+        same_order = ([[m["name"] for m in o] if o else None for o in mat.dir_orders]
+                      == [[m["name"] for m in o] if o else None for o in mat3.dir_orders])
+    finally:
+        mat3.close()
+    if same_order and out2 != out3:
+        chk.monitor_failure("reload_sees_current_files", {"call": "_load"},
+                            "a second load in the same process, after the config files were edited in place, does not "
+                            "give the values the files hold now (differs from loading the same contents from fresh paths)",
+                            case2)
+    kept.append(case2)
+    snap = pytypes.SimpleNamespace(dir_orders=list(mat.dir_orders))
+    builders.append(lambda I, s2=s2, snap=snap, out2=out2, extra=extra: g_stack(s2, snap, out2, I, extra))
 
 
 def frame_probe(chk, stack, mat, out, rng, via_load, case, all_asg):
